@@ -565,3 +565,156 @@ theorem count_le_of_split (a b : Kids) (n : Nat) : count (a ++ b) n = count a n 
   simp [count, names_append, List.count_append]
 
 end Msimple
+
+namespace Msimple
+
+/-! ### completion of a Flat state: add the missing required leaves of every active scope -/
+mutual
+def need (c : Nat → Nat) : Particle → List Nat
+  | .elem n mi _ => List.replicate (mi - c n) n
+  | .seq mi _ ps => if mi == 0 && Particle.empL c ps then [] else needL c ps
+  | .choice _ _ _ => []
+  | .group _ mi _ p => if mi == 0 && p.emp c then [] else need c p
+def needL (c : Nat → Nat) : List Particle → List Nat
+  | [] => []
+  | p :: ps => need c p ++ needL c ps
+end
+
+mutual
+theorem need_subset (c : Nat → Nat) : (p : Particle) → ∀ x ∈ need c p, x ∈ p.leaves
+  | .elem n mi ma => by
+    intro x hx; simp only [need] at hx
+    simp [Particle.leaves, (List.mem_replicate.1 hx).2]
+  | .seq mi ma ps => by
+    intro x hx; simp only [need] at hx
+    split at hx
+    · cases hx
+    · simpa [Particle.leaves] using needL_subset c ps x hx
+  | .choice _ _ _ => by intro x hx; simp [need] at hx
+  | .group _ mi ma p => by
+    intro x hx; simp only [need] at hx
+    split at hx
+    · cases hx
+    · simpa [Particle.leaves] using need_subset c p x hx
+theorem needL_subset (c : Nat → Nat) : (ps : List Particle) → ∀ x ∈ needL c ps, x ∈ Particle.leavesL ps
+  | [] => by intro x hx; simp [needL] at hx
+  | p :: ps => by
+    intro x hx
+    simp only [needL, List.mem_append] at hx
+    simp only [Particle.leavesL, List.mem_append]
+    rcases hx with h | h
+    · exact .inl (need_subset c p x h)
+    · exact .inr (needL_subset c ps x h)
+end
+
+theorem count_zero_of_not_leaf {c : Nat → Nat} {p : Particle} {n : Nat} (h : n ∉ p.leaves) : (need c p).count n = 0 :=
+  List.count_eq_zero.2 fun hx => h (need_subset c p n hx)
+theorem countL_zero_of_not_leaf {c : Nat → Nat} {ps : List Particle} {n : Nat} (h : n ∉ Particle.leavesL ps) :
+    (needL c ps).count n = 0 :=
+  List.count_eq_zero.2 fun hx => h (needL_subset c ps n hx)
+
+-- after adding `need`, nothing is missing any more: stated for any count function `d` that
+-- agrees with `c + count (need …)` on the leaves of the particle
+mutual
+theorem missing_after_need (c d : Nat → Nat) : (p : Particle) → p.flat = true → p.leaves.Nodup →
+    (∀ n ∈ p.leaves, d n = c n + (need c p).count n) → missing d p = []
+  | .elem n mi ma, _, _, hd => by
+    have := hd n (by simp [Particle.leaves])
+    simp only [need, List.count_replicate_self] at this
+    simp only [missing]
+    split
+    · rename_i hlt; omega
+    · rfl
+  | .seq mi ma ps, hf, hnd, hd => by
+    simp only [Particle.flat, Bool.and_eq_true] at hf
+    simp only [Particle.leaves] at hnd hd
+    simp only [missing]
+    by_cases hc : (mi == 0 && Particle.empL c ps) = true
+    · have hdc : ∀ n ∈ Particle.leavesL ps, d n = c n := by
+        intro n hn; have := hd n hn; simpa [need, hc] using this
+      have : Particle.empL d ps = Particle.empL c ps := Particle.empL_congr d c ps hdc
+      simp only [Bool.and_eq_true] at hc
+      simp [hc.1, this, hc.2]
+    · have hd' : ∀ n ∈ Particle.leavesL ps, d n = c n + (needL c ps).count n := by
+        intro n hn; have := hd n hn; simpa [need, hc] using this
+      have := missingL_after_need c d ps hf.2 hnd hd'
+      split
+      · rfl
+      · exact this
+  | .choice _ _ _, hf, _, _ => by simp [Particle.flat] at hf
+  | .group g mi ma p, hf, hnd, hd => by
+    simp only [Particle.flat, Bool.and_eq_true] at hf
+    simp only [Particle.leaves] at hnd hd
+    simp only [missing]
+    by_cases hc : (mi == 0 && p.emp c) = true
+    · have hdc : ∀ n ∈ p.leaves, d n = c n := by
+        intro n hn; have := hd n hn; simpa [need, hc] using this
+      have : p.emp d = p.emp c := Particle.emp_congr d c p hdc
+      simp only [Bool.and_eq_true] at hc
+      simp [hc.1, this, hc.2]
+    · have hd' : ∀ n ∈ p.leaves, d n = c n + (need c p).count n := by
+        intro n hn; have := hd n hn; simpa [need, hc] using this
+      have := missing_after_need c d p hf.2 hnd hd'
+      split
+      · rfl
+      · exact this
+theorem missingL_after_need (c d : Nat → Nat) : (ps : List Particle) → Particle.flatL ps = true →
+    (Particle.leavesL ps).Nodup → (∀ n ∈ Particle.leavesL ps, d n = c n + (needL c ps).count n) →
+    missingL d ps = []
+  | [], _, _, _ => rfl
+  | p :: ps, hf, hnd, hd => by
+    simp only [Particle.flatL, Bool.and_eq_true] at hf
+    simp only [Particle.leavesL, List.nodup_append] at hnd
+    obtain ⟨hn1, hn2, hdisj⟩ := hnd
+    have h1 : ∀ n ∈ p.leaves, d n = c n + (need c p).count n := by
+      intro n hn
+      have := hd n (by simp [Particle.leavesL, hn])
+      have hz : (needL c ps).count n = 0 := countL_zero_of_not_leaf (fun h => hdisj n hn n h rfl)
+      simpa [needL, List.count_append, hz] using this
+    have h2 : ∀ n ∈ Particle.leavesL ps, d n = c n + (needL c ps).count n := by
+      intro n hn
+      have := hd n (by simp [Particle.leavesL, hn])
+      have hz : (need c p).count n = 0 := count_zero_of_not_leaf (fun h => hdisj n h n hn rfl)
+      simpa [needL, List.count_append, hz] using this
+    simp [missingL, missing_after_need c d p hf.1 hn1 h1, missingL_after_need c d ps hf.2 hn2 h2]
+end
+
+-- the completion never asks for more than a leaf's minimum
+mutual
+theorem need_count_le (c : Nat → Nat) : (p : Particle) → p.leaves.Nodup →
+    ∀ s ∈ p.specs, (need c p).count s.1 ≤ s.2.1 - c s.1
+  | .elem n mi ma, _ => by
+    intro s hs; simp [Particle.specs] at hs; subst hs; simp [need]
+  | .seq mi ma ps, hnd => by
+    intro s hs
+    simp only [need]
+    split
+    · simp
+    · exact needL_count_le c ps (by simpa [Particle.leaves] using hnd) s (by simpa [Particle.specs] using hs)
+  | .choice _ _ _, _ => by intro s _; simp [need]
+  | .group _ mi ma p, hnd => by
+    intro s hs
+    simp only [need]
+    split
+    · simp
+    · exact need_count_le c p (by simpa [Particle.leaves] using hnd) s (by simpa [Particle.specs] using hs)
+theorem needL_count_le (c : Nat → Nat) : (ps : List Particle) → (Particle.leavesL ps).Nodup →
+    ∀ s ∈ Particle.specsL ps, (needL c ps).count s.1 ≤ s.2.1 - c s.1
+  | [], _ => by intro s hs; simp [Particle.specsL] at hs
+  | p :: ps, hnd => by
+    simp only [Particle.leavesL, List.nodup_append] at hnd
+    obtain ⟨hn1, hn2, hdisj⟩ := hnd
+    intro s hs
+    simp only [Particle.specsL, List.mem_append] at hs
+    simp only [needL, List.count_append]
+    rcases hs with hs | hs
+    · have hl : s.1 ∈ p.leaves := mem_leaves_of_spec hs
+      have hz : (needL c ps).count s.1 = 0 := countL_zero_of_not_leaf (fun h => hdisj s.1 hl s.1 h rfl)
+      rw [hz, Nat.add_zero]; exact need_count_le c p hn1 s hs
+    · have hl : s.1 ∈ Particle.leavesL ps := by
+        rw [← Particle.specsL_names]; exact List.mem_map_of_mem (f := (·.1)) hs
+      have hz : (need c p).count s.1 = 0 := count_zero_of_not_leaf (fun h => hdisj s.1 h s.1 hl rfl)
+      rw [hz, Nat.zero_add]; exact needL_count_le c ps hn2 s hs
+end
+
+end Msimple
